@@ -390,7 +390,9 @@ func GenBadDigest(r *rand.Rand) string {
 
 // Mutate applies one byte-level mutation.
 func Mutate(r *rand.Rand, s string) string {
-	special := []string{"@", ":", "/", "[", "]", "%", "\x00", ".", "-", "_", "A", " ", "\n", "é", "..", "//", "__", "::"}
+	special := []string{"@", ":", "/", "[", "]", "%", "\x00", ".", "-", "_", "A", " ", "\n", "é", "..", "//", "__", "::",
+		// code points whose low byte, taken alone, is a character of the grammar
+		"š", "İ", "ş", "Ł", "ａ", "\u012d", "\u022e"}
 	b := []byte(s)
 	switch r.IntN(5) {
 	case 0: // delete
